@@ -181,17 +181,17 @@ func checkC02(c *run.Ctx) {
 	}
 	n := c.N(1500, 100000)
 	c.Parallel("doc", n, func(i int, r *rand.Rand) {
-		kind := []string{"EdDSA", "EdDSA", "EdDSA", "EdDSA", "EdDSA", "ES512", "PS512", "ES256-signer"}[(i/3)%8] // independent of the residues used for the document features below
+		kind := []string{"EdDSA", "EdDSA", "EdDSA", "EdDSA", "EdDSA", "ES512", "PS512", "ES256-signer"}[mix(i, 7, 8)]
 		kp := all[kind][0]
-		interp := i%3 == 0
+		interp := mix(i, 9, 3) == 0
 		o := gen.PipeOpts{
-			Str:        gen.StringOpts{Tricky: true, Interp: true, LeadingWS: i%9 == 0},
-			Unknown:    i%10 == 0,
+			Str:        gen.StringOpts{Tricky: true, Interp: true, LeadingWS: mix(i, 1, 9) == 0},
+			Unknown:    mix(i, 2, 10) == 0,
 			NoTime:     false,
-			Sharing:    i%5 == 1,
-			TrickyKeys: i%2 == 0,
-			BigMaps:    i%4 == 0,
-			Signature:  (i/8)%3 == 1, // some steps arrive with a (stale) signature record: signing replaces it
+			Sharing:    mix(i, 3, 5) == 1,
+			TrickyKeys: mix(i, 4, 2) == 0,
+			BigMaps:    mix(i, 5, 4) == 0,
+			Signature:  mix(i, 6, 3) == 1, // some steps arrive with a (stale) signature record: signing replaces it
 		}.NoSweep()
 		if interp {
 			// strings with references that all resolve
@@ -214,7 +214,7 @@ func checkC02(c *run.Ctx) {
 		}
 		rs := renderings(d, r, 1, func(style, why string) { c.Count("renderings_discarded_generator_invalid", 1) })
 		rd := rs[len(rs)-1]
-		if i%2 == 0 {
+		if mix(i, 8, 2) == 0 {
 			rd = rs[0]
 		}
 		id := run.CaseID("doc", i)
